@@ -42,6 +42,12 @@ var boundary = []string{
 	"S -> S S |",
 	"S -> S |",
 	"S -> S a S | S |",
+	// a self-looping state with two kernel items (LALR lookaheads must propagate along GOTO(I,X) = I)
+	"S -> A d | C e ; A -> x B ; B -> A | C ; C -> x",
+	"S -> A d | C e | A f ; A -> x B | y ; B -> A | C ; C -> x | y",
+	// terminals that have the same name as a non-terminal (spelled 'S in case files)
+	"S -> 'S A | a ; A -> 'A S | b",
+	"S -> A 'A | 'S ; A -> a A |",
 	// ε and unit productions, nullable prefixes
 	"S -> A S b | c ; A -> a |",
 	"S -> A A ; A -> a A | b",
@@ -99,7 +105,7 @@ func plainCase(g gx.G, shuffle int, limit int, dump bool) hx.Case {
 		c.Ops = append(c.Ops, "build "+k)
 		var err error
 		var T *lr.ParsingTable
-		if hx.Try(func() { T, err = builders[k](g.ToCFG(), nil) }) == "" && err == nil && T != nil {
+		if hx.Try(func() { T, err = builders[k](toCFG(g), nil) }) == "" && err == nil && T != nil {
 			ok[k] = true
 		}
 	}
@@ -109,6 +115,7 @@ func plainCase(g gx.G, shuffle int, limit int, dump bool) hx.Case {
 		}
 		c.Ops = append(c.Ops, "check "+k)
 	}
+	c.Ops = append(c.Ops, "chain")
 	nok := 0
 	for _, k := range kinds {
 		if ok[k] {
@@ -206,13 +213,14 @@ func orderedPartitions(xs []string, f func([][]string)) {
 	rec(0, nil)
 }
 
-var resolveProds = []string{"[E:E,+,E]", "[E:E,*,E]", "[E:E,E]", "[E:T]", "[T:a]", "[T:]", "[E:-,E]", "[T:T,b,E]"}
+var resolveProds = []string{"[E:E,+,E]", "[E:E,*,E]", "[E:E,E]", "[E:T]", "[T:a]", "[T:]", "[E:-,E]", "[T:T,b,E]",
+	"[E:E,?,E,:,E]", "[E:a,E,b]", "[T:b,T,a]", "[E:E,:,E,?,E]"}
 
 // resolveCase: direct resolveConflict / Compare ops on random levels and action lists.
 func resolveCase(r *hx.Rand, shuffle int) hx.Case {
 	c := hx.Case{Header: fmt.Sprintf("comp=resolve shuffle=%d", shuffle)}
-	c.Ops = append(c.Ops, "terms a b + * -", "nonterms E T", "start E", "prod E : T", "prod T : a")
-	handles := []string{"a", "b", "+", "*", "-", "[E:E,E]", "[E:T]", "[T:]"}
+	c.Ops = append(c.Ops, "terms a b + * - ? :", "nonterms E T", "start E", "prod E : T", "prod T : a")
+	handles := []string{"a", "b", "+", "*", "-", "?", ":", "[E:E,E]", "[E:T]", "[T:]"}
 	perm := append([]string{}, handles...)
 	for i := len(perm) - 1; i > 0; i-- {
 		j := r.Intn(i + 1)
@@ -241,7 +249,7 @@ func resolveCase(r *hx.Rand, shuffle int) hx.Case {
 		}
 	}
 	for k := r.Range(4, 10); k > 0; k-- {
-		term := hx.Pick(r, []string{"a", "b", "+", "*", "-"})
+		term := hx.Pick(r, []string{"a", "b", "+", "*", "-", "?", ":"})
 		n := r.Range(2, 4)
 		seen := map[string]bool{}
 		var acts []string
@@ -304,13 +312,89 @@ func precGrammarCase(r *hx.Rand, g gx.G, shuffle int) hx.Case {
 	return c
 }
 
+// quoteSome renames (with probability 1/5) one terminal to the name of a non-terminal, spelled 'N.
+func quoteSome(r *hx.Rand, g gx.G) gx.G {
+	if !r.Chance(1, 5) || len(g.Terms) == 0 {
+		return g
+	}
+	old := hx.Pick(r, g.Terms)
+	nw := "'" + hx.Pick(r, g.NonTerms)
+	out := gx.G{Start: g.Start, NonTerms: g.NonTerms}
+	for _, t := range g.Terms {
+		if t == old {
+			t = nw
+		}
+		out.Terms = append(out.Terms, t)
+	}
+	for _, p := range g.Prods {
+		q := gx.P{Head: p.Head}
+		for _, x := range p.Body {
+			if x == old {
+				x = nw
+			}
+			q.Body = append(q.Body, x)
+		}
+		out.Prods = append(out.Prods, q)
+	}
+	return out
+}
+
 func randomReduced(r *hx.Rand, o gx.GenOpts) gx.G {
 	for {
 		g := gx.Random(r, o)
 		if g.Reduced() {
-			return g
+			return quoteSome(r, g)
 		}
 	}
+}
+
+// ternaryCase: E → E ? E : E | E op E | id with random levels over ?, : and the binary operators (the handle of
+// the ternary production is its FIRST terminal).
+func ternaryCase(r *hx.Rand, shuffle int) hx.Case {
+	c := hx.Case{Header: fmt.Sprintf("comp=ternary shuffle=%d", shuffle)}
+	bin := []string{"+", "*"}[:r.Range(0, 2)]
+	first, second := "?", ":"
+	if r.Chance(1, 4) {
+		first, second = ":", "?"
+	}
+	c.Ops = append(c.Ops, "terms id "+first+" "+second+" "+strings.Join(bin, " "), "nonterms E", "start E")
+	c.Ops = append(c.Ops, "prod E : E "+first+" E "+second+" E")
+	for _, o := range bin {
+		c.Ops = append(c.Ops, "prod E : E "+o+" E")
+	}
+	c.Ops = append(c.Ops, "prod E : id")
+	hs := append([]string{first, second}, bin...)
+	for i := len(hs) - 1; i > 0; i-- {
+		j := r.Intn(i + 1)
+		hs[i], hs[j] = hs[j], hs[i]
+	}
+	if r.Chance(1, 6) {
+		hs = hs[:len(hs)-1]
+	}
+	for len(hs) > 0 {
+		n := r.Range(1, 2)
+		if n > len(hs) {
+			n = len(hs)
+		}
+		c.Ops = append(c.Ops, "prec "+hx.Pick(r, []string{"left", "right", "left", "right", "none"})+" "+strings.Join(hs[:n], " "))
+		hs = hs[n:]
+	}
+	for _, k := range kinds {
+		c.Ops = append(c.Ops, "build "+k)
+	}
+	c.Ops = append(c.Ops, "check slr")
+	for i := 0; i < 4; i++ {
+		e := []string{"id"}
+		for j := r.Range(0, 3); j > 0; j-- {
+			if r.Chance(1, 2) || len(bin) == 0 {
+				e = append(e, first, "id", second, "id")
+			} else {
+				e = append(e, hx.Pick(r, bin), "id")
+			}
+		}
+		c.Ops = append(c.Ops, "parse slr "+strings.Join(e, " "), "ast lalr "+strings.Join(e, " "))
+	}
+	return c
 }
 
 func Main(run *hx.Run) {
@@ -375,6 +459,12 @@ func Main(run *hx.Run) {
 			}
 		}
 		run.Do("expr", exprCase(ops, levels, assoc, randomExprs(re, ops, 8), next()), Exec)
+	}
+
+	// ternary operator with precedence levels
+	rt3 := run.R.Fork("ternary")
+	for k, n := 0, scale(25); k < n; k++ {
+		run.Do("ternary", ternaryCase(rt3, next()), Exec)
 	}
 
 	// resolveConflict / Compare directly
